@@ -69,7 +69,8 @@ def emit_cases(ctx, label, **consts):
     res = tlc_run(ctx, label + ' (case table)', invariants=INVS + ['Emitted'],
                   workers=1, Emit='TRUE', **consts)
     cases = []
-    for v in tlc.printed_values(res):
+    from harness.drivers.handshake import printed_cases
+    for v in printed_cases(res.output):
         if isinstance(v, list) and v and v[0] == 'case':
             cases.append(dict(c=v[1], s=v[2], trustall=v[3], edits=v[4],
                               done_c=v[5], done_s=v[6], chosen=v[7]))
@@ -117,7 +118,8 @@ def main(ctx):
     tlc_run(ctx, 'dh 1 edit, enc lists vary', KexType='"dh"',
             VaryCats='{"enc"}', workers=W)
     tlc_run(ctx, 'gex 1 edit, kex lists vary', KexType='"gex"',
-            VaryCats='{"kex"}', workers=W)
+            VaryCats='{"kex"}', EditListMode='"few"' if quick else '"all"',
+            workers=W)
     tlc_run(ctx, 'rsa 1 edit, mac lists vary, trust-all too',
             KexType='"rsa"', VaryCats='{"mac"}', EditListMode='"few"',
             TrustAllSet='{FALSE, TRUE}', workers=W)
@@ -361,7 +363,7 @@ def main(ctx):
     for cat, table in pair_tables:
         if cat == 'enc+mac' and quick:
             rnd.shuffle(table)
-            table = table[:500]
+            table = table[:300]
         for ci, case in enumerate(table):
             tri = kex_triples[ci % 3 if cat == 'kex' and not quick else 0]
             names = names_for(tri[0], tri[1:])
@@ -417,7 +419,7 @@ def main(ctx):
                 continue
             size = len(m.orig)
             for off in range(0, size, 1):
-                if step > 1 and (off * 7 + len(m.name)) % step != 0:
+                if step > 1 and (off * 7 + len(m.name) + ctx.seed) % step != 0:
                     continue
                 mask = masks[(off + n) % len(masks)]
                 ed = {'msg': m.name, 'fn': H.e_flip(off, mask),
@@ -449,7 +451,7 @@ def main(ctx):
         return n
 
     if quick:
-        byte_sweep('curve25519-sha256', 1, True, [0x01, 0x80, 0xff],
+        byte_sweep('curve25519-sha256', 2, True, [0x01, 0x80, 0xff],
                    'bytes')
         for kex in ['diffie-hellman-group-exchange-sha256', 'rsa2048-sha256',
                     'diffie-hellman-group14-sha256', 'ecdh-sha2-nistp256',
